@@ -250,7 +250,64 @@ def check_value(chk, pp, t, k, va, vm, route):
 
 
 # ----------------------------------------------------------------------------------------------- C11
+def len_across_updates(chk):
+    """arc-length queries on a reused object: query, update to other data over the *same* time span (same first and last
+    breakpoint, other interior knots / segment count / coefficients), the same query again (same arguments, both overload
+    routes go through it) - against a fresh object holding the new data, bit for bit (C++ against C++)"""
+    rng = chk.rng
+    lines, plan = [], []
+    rid = 0
+    for rep in range(12 if not chk.thorough() else 80):
+        d = rng.choice([1, 2, 3]); fo = rng.choice([-1, 4, 6, 8])
+        nc = rng.choice([2, 3, 4, 6]) if fo < 0 else rng.randint(2, fo)
+        s_re = d * 1000 + 800 + (rep % 40) * 2       # (the request is routed by slot // 1000 = dimension)
+        s_fr = s_re + 1
+        pp = rand_pp(rng, d, fo, rng.choice([1, 2, 3, 5]), nc)
+        a, b = pp.bps[0], pp.bps[-1]
+        dt = rng.choice([0.01, 0.0625, (b - a) / 37])
+        lines.append(init_line(rid, s_re, 1, pp, 'F')); plan.append(('init', None)); rid += 1
+        first = True
+        for step in range(rng.randint(2, 4)):
+            lines.append(f'{rid} F pp_len {s_re} {hx(a)} {hx(b)} {hx(dt)}'); plan.append(('len_reused', (rep, step))); rid += 1
+            if not first:
+                lines.append(init_line(rid, s_fr, 1, pp, 'F')); plan.append(('init', None)); rid += 1
+                lines.append(f'{rid} F pp_len {s_fr} {hx(a)} {hx(b)} {hx(dt)}'); plan.append(('len_fresh', (rep, step))); rid += 1
+            first = False
+            # next data over the same span
+            nseg = rng.choice([1, 2, 3, 5])
+            cuts = sorted(rng.uniform(a, b) for _ in range(nseg - 1))
+            bps = [a] + cuts + [b]
+            if any(y - x < 1e-3 for x, y in zip(bps, bps[1:])):
+                bps = [a + (b - a) * q / nseg for q in range(nseg)] + [b]
+            nc2 = nc if fo >= 0 and rng.random() < 0.5 else (rng.choice([2, 3, 4, 6]) if fo < 0 else rng.randint(2, fo))
+            rows = [[gen.real(rng, -4, 4, 0.7, 3) for _ in range(d)] for _ in range(nseg * nc2)]
+            pp = PP(d, fo, bps, rows, nc2)
+            lines.append(init_line(rid, s_re, rng.choice([0, 0, 1]), pp, 'F')); plan.append(('init', None)); rid += 1
+        lines.append(f'{rid} F pp_len {s_re} {hx(a)} {hx(b)} {hx(dt)}'); plan.append(('len_reused', (rep, 99))); rid += 1
+        lines.append(init_line(rid, s_fr, 1, pp, 'F')); plan.append(('init', None)); rid += 1
+        lines.append(f'{rid} F pp_len {s_fr} {hx(a)} {hx(b)} {hx(dt)}'); plan.append(('len_fresh', (rep, 99))); rid += 1
+    cpp, _ = runner.run_harness(harness(), lines)
+    chk.evaluations += len(lines)
+    got = {}
+    for q, (kind, key) in enumerate(plan):
+        if kind.startswith('len'):
+            got[(kind, key)] = (cpp[str(q)].get('len'), lines[q])
+    bad = 0
+    for (kind, key), (val, line) in got.items():
+        if kind != 'len_fresh':
+            continue
+        chk.count('arc length re-queried with the same arguments after an update over the same time span')
+        re_val = got.get(('len_reused', key), (None, ''))[0]
+        if val is None or re_val is None:
+            chk.mismatch('arc-length request not answered by the harness', {'request': line[:200]}); continue
+        if re_val != val and bad < 5:
+            bad += 1
+            chk.violation('arc length of a reused object differs from a fresh object holding the same data (same query before the update)',
+                          {'request': line[:300]}, {'reused': str(re_val), 'fresh': str(val)})
+
+
 def c11(chk):
+    len_across_updates(chk)
     rng = chk.rng
     nhist = 40 if not chk.thorough() else 300
     lines, plan = [], []
